@@ -2231,11 +2231,15 @@ class PackData:
         """
         contents = self._contents
         self._contents = None
-        _close_file_contents(contents)
-        if self._file is not None:
-            if self._close_file:
-                self._file.close()
-            self._file = None  # type: ignore
+        try:
+            _close_file_contents(contents)
+        finally:
+            # Release the file even when the mapping cannot be closed yet
+            # (BufferError while a view of it is still alive).
+            if self._file is not None:
+                if self._close_file:
+                    self._file.close()
+                self._file = None  # type: ignore
 
     def __del__(self) -> None:
         """Ensure pack file is closed when PackData is garbage collected."""
